@@ -1,6 +1,7 @@
 package props
 
 import (
+	sdk "github.com/cosmos/cosmos-sdk/types"
 	"verifharness/world"
 )
 
@@ -229,3 +230,21 @@ func burnStep(g *G, kind string) *world.Step {
 	}
 	return &world.Step{Kind: "tx", Tx: g.genBurnTx()}
 }
+
+var CfgC16 = reg(&MachineCfg{
+	Prop: "C16",
+	Gens: []interface{}{"boundary", 46, "aol", 14, "did", 10, "pnft", 14, "authz", 6, "commit", 10},
+	Bias: map[string]int{"right-signers": 96, "exec": 12, "right-proof": 90},
+	Rule: "pipeline half of C16: boundary-directed messages (one field on or next to a documented limit) are sent as signed transactions, alone and wrapped in authz exec, into a populated chain; oracle = every message the independent limit oracle rejects fails and leaves the aol/did/pnft stores byte-identical, and a final scan finds every stored field within the limits; non-trivial = >=3 out-of-limits messages sent and >=1 in-limits message executed",
+	NonTrivial: func(w *world.World) bool {
+		return lab(w, "c16 out-of-limits message sent") >= 3 && lab(w, "c16 in-limits message executed") > 0
+	},
+	Final: func(w *world.World) error { return w.CheckStoredWithinLimits() },
+	Step: func(g *G, kind string) *world.Step {
+		if kind != "boundary" {
+			return nil
+		}
+		m, _ := genC16Msg(g.T)
+		return &world.Step{Kind: "tx", Tx: g.wrapTx([]sdk.Msg{m}, "boundary "+sdk.MsgTypeURL(m), false)}
+	},
+})
